@@ -32,7 +32,8 @@ def sites(arch):
     out += [("@db", lambda t: f"@db 1, {t}, 2", "b"), ("@dw", lambda t: f"@dw {t}, 3", "w"),
             ("@db last", lambda t: f"@db 1, {t}", "b"), ("@dw last", lambda t: f"@dw 3, {t}", "w"), ("@dw only", lambda t: f"@dw {t}", "w"),
             ("@ds fill", lambda t: f"@ds 3, {t}", "b"), ("@assert", lambda t: f"@assert {t} == {t}", "a"),
-            ("@assert0", lambda t: f"@assert {t} - {t}", "a")]
+            ("@assert0", lambda t: f"@assert {t} - {t}", "a"),
+            ("@assert-neg", lambda t: f"@assert {t} - 9", "a"), ("@assert-neg2", lambda t: f"@assert 0 - {t} - 1", "a")]
     return out
 
 
